@@ -30,6 +30,13 @@ class _Unbound:
 
 UNBOUND = _Unbound()
 
+
+class _Maybe:
+    """local bound only under ``cond`` (assigned on some merged paths): reading it obliges ``cond``"""
+
+    def __init__(self, value, cond):
+        self.value, self.cond = value, cond
+
 _AST_CACHE = {}
 
 BINOPS = {ast.BitAnd: operator.and_, ast.BitOr: operator.or_, ast.BitXor: operator.xor, ast.Add: operator.add,
@@ -108,6 +115,14 @@ class Return(BaseException):
         self.value = value
 
 
+class ContinueLoop(BaseException):
+    pass
+
+
+class BreakLoop(BaseException):
+    pass
+
+
 class Frame:
     def __init__(self, fn, args, kwargs):
         self.fn = fn
@@ -122,12 +137,18 @@ class Frame:
         ba.apply_defaults()
         self.locals.update(ba.arguments)
         self.out = []
+        self.loops = []        # innermost last: {'cont': False|z3, 'brk': False|z3, 'depth': int}
+        self.ret = False       # False or z3 Bool: a return was executed under a symbolic guard
+        self.returns = []      # [(guard, value)]
 
     def lookup(self, name):
         if name in self.locals:
             v = self.locals[name]
             if v is UNBOUND:
-                raise Unsupported(f'read of possibly-unbound {name}')
+                raise UnboundLocalError(name)
+            if isinstance(v, _Maybe):
+                core.oblige(v.cond, f'UnboundLocalError: local {name!r} read where it may be unbound')
+                return v.value
             return v
         if name in self.closure:
             return self.closure[name].cell_contents
@@ -151,8 +172,22 @@ def call(fn, *args, **kwargs):
         rv = None
     except Return as r:
         rv = r.value
+        if fr.returns:
+            fr.returns.append((True, rv))
     if fr.is_gen:
         return GuardedSeq(fr.out)
+    if fr.returns:
+        # returns executed under symbolic guards: merge the values; falling off the end (implicit None) must be
+        # impossible unless the last return is unconditional
+        guards = [g for g, _ in fr.returns]
+        if guards[-1] is not True:
+            core.oblige(z3.Or(*guards), f'{fn.__qualname__}: some path falls off the end while others return a value')
+        rv = fr.returns[-1][1]
+        for g, v in reversed(fr.returns[:-1]):
+            try:
+                rv = ite(g, v, rv)
+            except core.Unmergeable as e:
+                raise Unsupported(f'unmergeable return values in {fn.__qualname__}: {e}')
     return rv
 
 
@@ -174,9 +209,45 @@ def truth(v):
     return bool(v)
 
 
+def _flags(fr):
+    fl = [fr.ret] if fr.ret is not False else []
+    for lp in fr.loops:
+        for k in ('cont', 'brk'):
+            if lp[k] is not False:
+                fl.append(lp[k])
+    return fl
+
+
 def exec_block(fr, stmts):
+    cx = ctx()
     for s in stmts:
-        exec_stmt(fr, s)
+        fl = _flags(fr)
+        if not fl:
+            exec_stmt(fr, s)
+            continue
+        # a guarded return/break/continue happened earlier: the rest runs only where none of them did
+        dead = z3.simplify(z3.Or(*fl))
+        if z3.is_true(dead):
+            return
+        live = z3.Not(dead)
+        base = dict(fr.locals)
+        cx.guard.append(live)
+        try:
+            exec_stmt(fr, s)
+        finally:
+            cx.guard.pop()
+        fr.locals = merge_locals(live, fr.locals, base)
+
+
+def _rel_guard(cx, depth):
+    gs = cx.guard[depth:]
+    return z3.simplify(z3.And(*gs)) if gs else True
+
+
+def _or(a, b):
+    if a is False:
+        return b
+    return z3.Or(a, b)
 
 
 def assign(fr, target, value):
@@ -205,13 +276,22 @@ def merge_locals(c, a, b):
         va, vb = a.get(k, UNBOUND), b.get(k, UNBOUND)
         if va is vb:
             out[k] = va
-        elif va is UNBOUND or vb is UNBOUND:
-            out[k] = UNBOUND
-        else:
-            try:
-                out[k] = ite(c, va, vb)
-            except core.Unmergeable as e:
-                raise Unsupported(f'unmergeable local {k}: {e}')
+            continue
+        ca = z3.BoolVal(va is not UNBOUND) if not isinstance(va, _Maybe) else va.cond
+        cb = z3.BoolVal(vb is not UNBOUND) if not isinstance(vb, _Maybe) else vb.cond
+        xa = va.value if isinstance(va, _Maybe) else va
+        xb = vb.value if isinstance(vb, _Maybe) else vb
+        try:
+            if xa is UNBOUND:
+                val = xb
+            elif xb is UNBOUND:
+                val = xa
+            else:
+                val = ite(c, xa, xb)
+        except core.Unmergeable as e:
+            raise Unsupported(f'unmergeable local {k}: {e}')
+        cond = z3.simplify(z3.If(c, ca, cb))
+        out[k] = val if z3.is_true(cond) else _Maybe(val, cond)
     return out
 
 
@@ -220,8 +300,8 @@ def feasible(g):
     return cx.check_fresh(z3.And(cx.cur_guard(), g))
 
 
-def has_control(s):
-    return any(isinstance(n, (ast.Raise, ast.Return, ast.Break, ast.Continue)) for n in ast.walk(s))
+def has_raise(s):
+    return any(isinstance(n, ast.Raise) for n in ast.walk(s))
 
 
 def exec_stmt(fr, s):
@@ -239,9 +319,21 @@ def exec_stmt(fr, s):
         v = INPLACE[type(s.op)](cur, ev(fr, s.value))
         assign(fr, s.target, v)
     elif isinstance(s, ast.Return):
-        if fr.guard_depth != len(cx.guard):
-            raise Unsupported('return under symbolic guard')
-        raise Return(ev(fr, s.value) if s.value is not None else None)
+        val = ev(fr, s.value) if s.value is not None else None
+        if fr.guard_depth == len(cx.guard):
+            raise Return(val)
+        g = _rel_guard(cx, fr.guard_depth)
+        fr.returns.append((g, val))
+        fr.ret = _or(fr.ret, g)
+    elif isinstance(s, (ast.Continue, ast.Break)):
+        if not fr.loops:
+            raise Unsupported('break/continue outside an interpreted loop')
+        lp = fr.loops[-1]
+        if len(cx.guard) == lp['depth']:
+            raise (ContinueLoop if isinstance(s, ast.Continue) else BreakLoop)()
+        g = _rel_guard(cx, lp['depth'])
+        key = 'cont' if isinstance(s, ast.Continue) else 'brk'
+        lp[key] = _or(lp[key], g)
     elif isinstance(s, ast.Raise):
         if cx.guard:
             raise Unsupported('raise under symbolic guard')
@@ -250,7 +342,7 @@ def exec_stmt(fr, s):
         raise ev(fr, s.exc)
     elif isinstance(s, ast.If):
         c = truth(ev(fr, s.test))
-        if not isinstance(c, bool) and not cx.guard and has_control(s):
+        if not isinstance(c, bool) and not cx.guard and has_raise(s):
             c = core.branch(c)
         if isinstance(c, bool):
             exec_block(fr, s.body if c else s.orelse)
@@ -276,25 +368,38 @@ def exec_stmt(fr, s):
         if s.orelse:
             raise Unsupported('for-else')
         it = ev(fr, s.iter)
-        if hasattr(it, 'guarded_items'):
-            for g, v in it.guarded_items():
+        items = it.guarded_items() if hasattr(it, 'guarded_items') else ((True, v) for v in it)
+        lp = {'cont': False, 'brk': False, 'depth': len(cx.guard)}
+        fr.loops.append(lp)
+        try:
+            for g, v in items:
                 if isinstance(g, bool):
-                    if g:
-                        assign(fr, s.target, v)
-                        exec_block(fr, s.body)
-                    continue
+                    if not g:
+                        continue
+                    g = True
+                conds = ([g] if g is not True else []) + ([z3.Not(lp['brk'])] if lp['brk'] is not False else [])
                 base = dict(fr.locals)
-                cx.guard.append(g)
+                for c in conds:
+                    cx.guard.append(c)
+                lp['cont'] = False
+                lp['depth'] = len(cx.guard)
                 try:
                     assign(fr, s.target, v)
                     exec_block(fr, s.body)
+                except ContinueLoop:
+                    pass
+                except BreakLoop:
+                    if conds:
+                        raise Unsupported('unconditional break inside a guarded iteration')
+                    break
                 finally:
-                    cx.guard.pop()
-                fr.locals = merge_locals(g, fr.locals, base)
-        else:
-            for v in it:
-                assign(fr, s.target, v)
-                exec_block(fr, s.body)
+                    for _ in conds:
+                        cx.guard.pop()
+                    lp['depth'] = len(cx.guard)
+                if conds:
+                    fr.locals = merge_locals(z3.And(*conds), fr.locals, base)
+        finally:
+            fr.loops.pop()
     elif isinstance(s, ast.Pass):
         pass
     elif isinstance(s, ast.Assert):
@@ -312,8 +417,6 @@ def exec_while(fr, s):
     cx = ctx()
     if s.orelse:
         raise Unsupported('while-else')
-    if has_control(s):
-        raise Unsupported('break/continue/return inside while')
     key = (fr.fn.__code__.co_name, s._loop_idx)
     inv_fn = LOOP_INVARIANTS.get(key)
     if inv_fn is not None:
@@ -322,37 +425,59 @@ def exec_while(fr, s):
     pushed = 0
     bound_fn = LOOP_BOUNDS.get(key)
     bound = bound_fn(fr) if bound_fn else None
+    lp = {'cont': False, 'brk': False, 'depth': len(cx.guard)}
+    fr.loops.append(lp)
     try:
         for it_no in range(MAX_UNROLL):
-            c = truth(ev(fr, s.test))
+            lp['cont'] = False
+            fl = _flags(fr)          # a guarded break of this loop, or a guarded return / outer break so far
+            if fl:
+                stop = z3.simplify(z3.Or(*fl))
+                if z3.is_true(stop):
+                    break
+                cx.guard.append(z3.Not(stop))
+                try:
+                    c = truth(ev(fr, s.test))
+                finally:
+                    cx.guard.pop()
+                c = z3.And(z3.Not(stop), z3.BoolVal(c) if isinstance(c, bool) else c)
+                lp['brk'] = False      # folded into the iteration guard from here on
+            else:
+                c = truth(ev(fr, s.test))
             if isinstance(c, bool):
                 if not c:
                     break
+            else:
+                c = z3.simplify(c)
+                if z3.is_false(c):
+                    break
+                if not z3.is_true(c):
+                    if bound is not None:
+                        if it_no >= bound:
+                            # unwinding assertion: the loop cannot run longer than the bound derived from the code
+                            core.oblige(z3.Not(c), f'unwinding assertion {key[0]}#{key[1]} bound {bound}')
+                            break
+                        exits.append((z3.Not(c), dict(fr.locals)))
+                    else:
+                        exits.append((z3.Not(c), dict(fr.locals)))
+                        if not feasible(c):
+                            exits.pop()
+                            break
+                    cx.guard.append(c)
+                    pushed += 1
+            lp['depth'] = len(cx.guard)
+            try:
                 exec_block(fr, s.body)
-                continue
-            c = z3.simplify(c)
-            if z3.is_false(c):
+            except ContinueLoop:
+                pass
+            except BreakLoop:
                 break
-            if not z3.is_true(c):
-                if bound is not None:
-                    if it_no >= bound:
-                        # unwinding assertion: the loop cannot run longer than the bound derived from the code
-                        core.oblige(z3.Not(c), f'unwinding assertion {key[0]}#{key[1]} bound {bound}')
-                        break
-                    exits.append((z3.Not(c), dict(fr.locals)))
-                else:
-                    exits.append((z3.Not(c), dict(fr.locals)))
-                    if not feasible(c):
-                        exits.pop()
-                        break
-                cx.guard.append(c)
-                pushed += 1
-            exec_block(fr, s.body)
         else:
             raise Unsupported('unwind limit')
     finally:
         for _ in range(pushed):
             cx.guard.pop()
+        fr.loops.pop()
     cur = fr.locals
     for notc, snap in reversed(exits):
         cur = merge_locals(notc, snap, cur)
@@ -387,11 +512,21 @@ def exec_while_inv(fr, s, inv_fn):
     if isinstance(c, bool):
         raise Unsupported('concrete loop condition after havoc')
     cx.guard.append(c)
+    lp = {'cont': False, 'brk': False, 'depth': len(cx.guard)}
+    fr.loops.append(lp)
     try:
-        exec_block(fr, s.body)
+        try:
+            exec_block(fr, s.body)
+        except ContinueLoop:
+            pass
+        except BreakLoop:
+            raise Unsupported('break in a loop summarised by an invariant')
+        if lp['brk'] is not False:
+            raise Unsupported('break in a loop summarised by an invariant')
         core.oblige(inv_fn(fr.locals, entry, fr),
                     f'loop invariant preserved ({fr.fn.__code__.co_name}#{s._loop_idx})')
     finally:
+        fr.loops.pop()
         cx.guard.pop()
     fr.locals = hav
     cx.assume(z3.Implies(g, z3.Not(c)))
